@@ -4,6 +4,8 @@
 (* operations on the real icy_engine::editor::EditState against Area.tla.   *)
 (* Events (harness/src/area.rs):                                            *)
 (*   maps  {fx, fy, unstable}   first event of a file: the glyph mirror maps *)
+(*                              (checked against what Area.tla knows about   *)
+(*                              them: MapSane437, MapClosed, MapSlashes)     *)
 (*                              of flip_x / flip_y as triples <<page, from,  *)
 (*                              to>>, probed through the public API          *)
 (*   reset {case, src, d}       a fresh EditState; d = the document as the   *)
@@ -61,6 +63,14 @@ DocDiff(a, b) ==
   ELSE IF a.cur # b.cur THEN [what |-> "current-layer", model |-> a.cur, engine |-> b.cur]
   ELSE LET i == CHOOSE i \in 1..Len(a.layers) : a.layers[i] # b.layers[i] IN [layer |-> i - 1, diff |-> LayerDiff(a.layers[i], b.layers[i])]
 
+\* the glyph maps are supplied by the trace; what the model knows about them is checked here (drift "maps:...")
+Maps(e, mx, my, unst) ==
+  /\ Expect(MapSane437(mx, FlipXPairs437, unst), "maps:flip_x-table-of-the-default-font", l, [n |-> Cardinality(DOMAIN mx)])
+  /\ Expect(MapSane437(my, FlipYPairs437, unst), "maps:flip_y-table-of-the-default-font", l, [n |-> Cardinality(DOMAIN my)])
+  /\ Expect(MapClosed(mx, unst) /\ MapClosed(my, unst), "maps:not-closed", l, <<>>)
+  /\ Expect(MapSlashes(mx, {0, 1}, unst), "maps:flip_x-slashes", l, <<>>)
+  /\ tm' = [x |-> mx, y |-> my] /\ UNCHANGED <<td, live>>
+
 Partial(d0) == d0.layers # <<>> /\ LET L == Cur(d0)  a == AreaOf(d0.sel, L) IN ~Empty(a) /\ (a.w < L.w \/ a.h < L.h)
 
 \* m = what the model says about this call (operator argument: evaluated once)
@@ -86,7 +96,7 @@ Next ==
   /\ l <= Len(Rec)
   /\ LET e == Rec[l] IN
      /\ Bump(3)
-     /\ CASE e.ev = "maps" -> tm' = [x |-> MkMap(e.fx), y |-> MkMap(e.fy)] /\ UNCHANGED <<td, live>>
+     /\ CASE e.ev = "maps" -> Maps(e, MkMap(e.fx), MkMap(e.fy), {<<e.unstable[i][1], e.unstable[i][2]>> : i \in 1..Len(e.unstable)})
           [] e.ev = "reset" -> Bump(4) /\ td' = e.d /\ live' = TRUE /\ UNCHANGED tm
           [] e.ev = "op" /\ live /\ e.o.op \in AllOps -> Judge(e, [td EXCEPT !.sel = e.sel], Apply([td EXCEPT !.sel = e.sel], e.o, tm.x, tm.y))
           [] OTHER -> Viol("TOOL", "unknown-event", l, e.ev) /\ UNCHANGED <<td, tm, live>>
